@@ -587,8 +587,12 @@ def run_case(case, ctx):
             got = np.asarray(xp.val).ravel().tolist()[1]
             if want.imag != 0:
                 if complex(got) != want:
-                    ctx.violation('complex_through_view', 'x[0][1] = %r on a %s array that holds real codes: code %r, the constructor stores %r (the imaginary part is dropped without any flag)' % (
-                        cs[2], R.dtype_fxp(s, w, nf), got, want), key='store.complex_through_view')
+                    # the recorded finding is exactly "the real component is stored, the imaginary one is dropped": any other outcome (the write lost
+                    # altogether, a wrong real code) is a violation of its own
+                    known = complex(got).imag == 0 and complex(got).real == want.real
+                    ctx.violation('complex_through_view', 'x[0][1] = %r on a %s array that holds real codes: code %r, the constructor stores %r (%s)' % (
+                        cs[2], R.dtype_fxp(s, w, nf), got, want, 'the imaginary part is dropped without any flag' if known else 'neither the value nor its real part'),
+                        key='store.complex_through_view' if known else 'store.through_view_lost')
                 ctx.judged(('complex-through-view',), True, None)
                 ctx.floor_hit(('complex_through_view',))
         except Exception:
